@@ -146,7 +146,7 @@ func main() {
 	defer ln2.Close()
 
 	errLog = filepath.Join(base, "errors.log")
-	cf := fmt.Sprintf("a.test:8080 {\n\troot %s\n\terrors "+errLog+"\n\tfastcgi /scripted unix:%s\n\tfastcgi / unix:%s {\n\t\text .php\n\t\tsplit .php\n\t\tindex index.php\n\t\tenv FOO bar\n\t\tenv DYN {host}-{method}\n\t}\n}\n", root, sock2, sock1)
+	cf := fmt.Sprintf("a.test:8080 {\n\troot %s\n\terrors "+errLog+"\n\tfastcgi /scripted unix:%s\n\tfastcgi / unix:%s {\n\t\text .php\n\t\tsplit .php\n\t\tindex index.php\n\t\tenv FOO bar\n\t\tenv DYN {host}-{method}-{path}\n\t}\n}\n", root, sock2, sock1)
 	l, err := kit.Load(cf, filepath.Join(base, "Casketfile"))
 	if err != nil {
 		rep.Broken("load: %v", err)
@@ -252,7 +252,8 @@ func main() {
 				if got.env["PATH_TRANSLATED"] != wantPT {
 					diffs = append(diffs, fmt.Sprintf("PATH_TRANSLATED %q want %q", got.env["PATH_TRANSLATED"], wantPT))
 				}
-				if got.env["FOO"] != "bar" || got.env["DYN"] != "a.test:8080-POST" {
+				// (the placeholders are expanded anew for every request: the path differs between requests)
+				if got.env["FOO"] != "bar" || got.env["DYN"] != "a.test:8080-POST-"+strings.SplitN(pp.p, "?", 2)[0] {
 					diffs = append(diffs, fmt.Sprintf("configured env FOO=%q DYN=%q", got.env["FOO"], got.env["DYN"]))
 				}
 				if got.env["SCRIPT_FILENAME"] != filepath.Join(root, pp.script) {
